@@ -454,3 +454,31 @@ def refusal_obligations(prop="C19"):
     out.append(OR(id=f"{prop}.S.utils.normalise_path.resolves", status=PROVED if ok else REFUTED, kind="S", role="post", backend="ast", target="ford.utils.normalise_path",
                   desc="normalise_path returns an absolute path with symlinks and '..' resolved (the refusal compares such paths component-wise)"))
     return out
+
+
+def glob_targets_are_owned(prop="C19"):
+    """the path-algebra rule `x in dst.rglob(..)  =>  x is under dst` speaks about names; a mutating call THROUGH such a name (touch, write) stays under dst only if the
+    entry is not a symbolic link to somewhere else.  Every tree a FORD function globs and then mutates must therefore have been created without copying links as links."""
+    out = []
+    for modname in ("ford.output", "ford.graphs", "ford.utils", "ford.fortran_project", "ford.pagetree"):
+        try:
+            tree = loader.module_source(modname)[1]
+        except Exception:
+            continue
+        for fn in [n for n in ast.walk(tree) if isinstance(n, (ast.FunctionDef,))]:
+            globs_and_mutates = any(isinstance(st, ast.For) and any(g in ast.unparse(st.iter) for g in (".rglob(", ".glob(", ".iterdir(")) and
+                                    any(isinstance(c, ast.Call) and isinstance(c.func, ast.Attribute) and c.func.attr in MUTATORS_METHOD for c in ast.walk(st)) for st in ast.walk(fn))
+            if not globs_and_mutates:
+                continue
+            bad = []
+            for c in ast.walk(fn):
+                if isinstance(c, ast.Call) and ast.unparse(c.func) in ("shutil.copytree", "copytree"):
+                    for k in c.keywords:
+                        if k.arg == "symlinks" and not (isinstance(k.value, ast.Constant) and k.value.value is False):
+                            bad.append(ast.unparse(c))
+            out.append(OR(id=f"{prop}.S.{modname.split('.')[-1]}.{fn.name}.globbed_tree_holds_no_foreign_links", status=PROVED if not bad else REFUTED, kind="S", role="pre", backend="ast",
+                          target=f"{modname}.{fn.name}", desc="a tree whose entries are mutated through a glob was copied with symlinks=False (links are followed while copying, so every entry "
+                          "under the destination is a file or directory of the destination itself)", witness=None if not bad else {"copy call": bad}))
+    if not out:
+        out.append(OR(id=f"{prop}.S.globbed_trees.none", status=PROVED, kind="S", role="pre", backend="ast", target="ford", desc="no function mutates entries obtained from a glob"))
+    return out
